@@ -128,7 +128,9 @@ def fieldsLine (st : FdRun) (lineNo : Nat) (line : String) : Except String (FdRu
           -- every failure the model knows of (missing secret, rejecting unmarshaler) must be reported...
           (if perr != "-" || (failed.all fun f => mentioned f) then [] else [s!"PROPFAIL C20 errors_reported {tag} failed={failed} aerr={aerrTxt.take 200}"]) ++
           -- ...and must not stop the other fields (checked by apply_fills on the rest)
-          (if aliased.isEmpty then [] else [s!"PROPFAIL C20 bytes_private {tag} store_after={get "store_after"}"]) ++
+          (if aliased.isEmpty then [] else
+            [s!"PROPFAIL C20 bytes_private {tag} store_after={get "store_after"}",
+             s!"PROPFAIL C12 really_served {tag} after the struct's owner wrote to its []byte field a handle yields bytes the service never served: store_after={get "store_after"}"]) ++
           (if perr != "-" || (codeFailed.map (·.fname)) == failed || !(get "aerr").startsWith "x" && failed.isEmpty then [] else
             [s!"DIVERGE fields_failed {tag} code={codeFailed.map (·.fname)} model={failed}"])
       let nf := (outs.filter (·.startsWith "PROPFAIL")).length
